@@ -72,7 +72,7 @@ func c20Gen(seed int64, idx int, tier string, jobSeed int64) c20Spec {
 
 // c20Loops: situations in which every loop of ONE process is in a non-trivial branch at the same time (the process
 // holds the manager lock while its own host is marked for recovery); they run under the race detector.
-var c20Loops = []string{"manager_on_marked_master", "manager_on_marked_replica_remarked", "manager_host_failed_over_and_back", "manager_on_marked_master_stuck"}
+var c20Loops = []string{"manager_on_marked_master", "manager_on_marked_replica_remarked", "manager_host_failed_over_and_back", "manager_on_marked_master_stuck", "manager_on_marked_master_registration_churn"}
 
 func c20Units(tier string) int {
 	return len(c20Mutations)*2 + tierN(tier, 16, 200) + tierN(tier, 24, 400) + tierN(tier, 24, 200) + tierN(tier, 24, 160)
@@ -276,6 +276,25 @@ func c20Run(u *Unit) {
 					s.W.Manual(h, "stop io thread", func(x *world.Server) { x.IORun = false })
 				}
 				time.Sleep(150 * time.Second)
+			case "manager_on_marked_master_registration_churn":
+				// hosts are registered and removed at any moment while the main loop, the recovery checker and the lag
+				// checker of one process all refresh their host list
+				put("recovery/"+master, `null`)
+				for i := 0; i < 90; i++ {
+					h := fmt.Sprintf("ghost-db%d", i%3)
+					if i%2 == 0 {
+						put("ha_nodes/"+h, `{"priority":0}`)
+					} else {
+						put("cascade_nodes/"+h, fmt.Sprintf(`{"stream_from":%q}`, hosts[1]))
+					}
+					time.Sleep(time.Duration(700+s.Rng.Intn(900)) * time.Millisecond)
+					if i%2 == 0 {
+						s.ZK.Remove("operator", NS+"/ha_nodes/"+h)
+					} else {
+						s.ZK.Remove("operator", NS+"/cascade_nodes/"+h)
+					}
+					time.Sleep(time.Duration(300+s.Rng.Intn(700)) * time.Millisecond)
+				}
 			case "manager_on_marked_replica_remarked":
 				// the mark is cleared by the host itself as soon as it finds itself clean; the operator keeps re-marking
 				for i := 0; i < 20; i++ {
